@@ -233,7 +233,7 @@ class Bench:
 		parts = text.split(" ")
 		st = self.nodes[i].ctrl(text)
 		mst, _ = trxc.apply(self.models[i], parts[0], parts[1:], self.models)
-		if parts[0] == "FAKE_DROP" and mst == 0:
+		if parts[0] == "FAKE_DROP" and mst == 0 and len(parts) in (2, 3):
 			self.budgets[i].set(self.models[i].drop_amount, self.models[i].drop_period)
 		return st, mst
 
